@@ -672,6 +672,15 @@ def spelling_groups():
         order.append(('%s:sub' % op, [Op(op, Op('-', x), y), Op(op, y, Op('-', x))]))
         order.append(('%s:cond' % op, [Op(op, ExprCond(f, x, y), x), Op(op, x, ExprCond(f, x, y))]))
         order.append(('%s:8' % op, [Op(op, b, c), Op(op, c, b)]))
+        # operands whose first structural difference is the value of a constant leaf (the order of two constants decides the order of the operands)
+        for lbl_, (p_, q_) in (('mem-disp', (ExprMem(Op('+', x, C(4))), ExprMem(Op('+', x, C(8))))),
+                               ('mem-disp-top', (ExprMem(Op('+', x, C(4))), ExprMem(Op('+', x, C(0xFFFFFFFC))))),
+                               ('mem-abs', (ExprMem(C(0x1000)), ExprMem(C(0x80001000)))),
+                               ('mask-shift', (Op('>>', Op('&', x, C(0xFF)), C(4)), Op('>>', Op('&', x, C(0xFF00)), C(4)))),
+                               ('cond-arms', (ExprCond(f, C(4), C(8)), ExprCond(f, C(8), C(4)))),
+                               ('shift-count', (Op('<<', x, C(1)), Op('<<', x, C(31))))):
+            order.append(('%s:const-twin:%s' % (op, lbl_), [Op(op, p_, q_), Op(op, q_, p_)]))
+            order.append(('%s:const-twin3:%s' % (op, lbl_), [Op(op, p_, q_, y), Op(op, y, Op(op, q_, p_)), Op(op, Op(op, p_, y), q_)]))
     order.append(('mem-addr', [ExprMem(Op('+', x, y)), ExprMem(Op('+', y, x))]))
     order.append(('mem-addr3', [ExprMem(Op('+', x, y, C(4)), 8), ExprMem(Op('+', C(4), y, x), 8), ExprMem(Op('+', Op('+', y, C(4)), x), 8)]))
     order.append(('nested-ops', [Op('+', Op('*', x, y), z), Op('+', z, Op('*', y, x))]))
